@@ -99,6 +99,14 @@ func fieldLoad(v ssa.Value, pkg, typ, field string) (ssa.Value, bool) {
 	v = an.Strip(v)
 	u, ok := v.(*ssa.UnOp)
 	if !ok || u.Op != token.MUL {
+		// an accessor method that only returns the field: `c.id()` for `c.connID`
+		if call, isCall := v.(*ssa.Call); isCall {
+			if g := an.StaticCallee(call.Common()); g != nil && an.InModule(g) && len(call.Common().Args) == 1 {
+				if t, fl, isG := an.FieldGetter(g); isG && t == typ && fl == field && an.FuncPkgPath(g) == pkg {
+					return call.Common().Args[0], true
+				}
+			}
+		}
 		if f, ok := v.(*ssa.Field); ok {
 			if an.TypeIs(f.X.Type(), pkg, typ) && an.FieldValName(f) == field {
 				return f.X, true
